@@ -367,7 +367,8 @@ def docspecs(draw, prof=None):
     d["initials"] = {n: draw(value_strategy(n, prof)) for n in names}
   nreg = draw(st.integers(0, prof["max_regions"]))
   for i in range(nreg):
-    r = dict(kind="region", id="r%d" % i, begin=None, end=None, region=None, styles=_styles(draw, ctx, (prof["style_density"][0], max(5, prof["style_density"][1]))),
+    # ids in the reverse of declaration order: document order and the order of the ids are different things (seeded change C06-19)
+    r = dict(kind="region", id="r%d" % (nreg - 1 - i), begin=None, end=None, region=None, styles=_styles(draw, ctx, (prof["style_density"][0], max(5, prof["style_density"][1]))),
              anims=_anims(draw, ctx), kids=[], space="default", lang="")
     if prof["timed_regions"]:
       r["begin"] = draw(opt_time(prof))
